@@ -1,5 +1,6 @@
 (* C15: timestamped signing needs a verified, matching, unrevoked TSA token. *)
 From NCG Require Import Model.Timestamp Proofs.Sign.
+From Coq Require Import Permutation PeanoNat.
 From Coq Require Import Lia.
 
 (* ---------- the aggregation of the per-certificate revocation results ---------- *)
@@ -148,3 +149,36 @@ Proof.
   intros H. apply sign_gate in H. destruct H as [_ [s [k [a [chain [_ [_ [_ [_ [-> _]]]]]]]]]]. reflexivity.
 Qed.
 End S.
+
+(* ---- revocationResult depends on which results occur, not on their order ---- *)
+Theorem aggregate_order_independent rs rs' n : Permutation rs rs' -> aggregate rs n = aggregate rs' n.
+Proof.
+  intros P.
+  destruct rs as [|a t] eqn:Ers.
+  { apply Permutation_nil in P. subst rs'. reflexivity. }
+  rewrite <- Ers in *. assert (Hne : rs <> []) by (rewrite Ers; discriminate).
+  assert (Hne' : rs' <> []).
+  { intros ->. apply Permutation_sym, Permutation_nil in P. contradiction. }
+  assert (Hlen : length rs = length rs') by (apply Permutation_length; exact P).
+  destruct (Nat.eq_dec (length rs) n) as [Hn|Hn].
+  2:{ unfold aggregate. destruct rs as [|x r]; [contradiction|]. destruct rs' as [|x' r']; [contradiction|].
+      rewrite <- Hlen. assert (Nat.eqb (length (x :: r)) n = false) as -> by (apply Nat.eqb_neq; exact Hn). reflexivity. }
+  assert (Hn' : length rs' = n) by (rewrite <- Hlen; exact Hn).
+  assert (dec : forall x y : rres, {x = y} + {x <> y}) by decide equality.
+  destruct (in_dec dec RRevoked rs) as [Hr|Hr].
+  { rewrite (aggregate_revoked_priority rs n Hne Hn Hr).
+    symmetry. apply aggregate_revoked_priority; [exact Hne'|exact Hn'|]. eapply Permutation_in; eauto. }
+  assert (Hr' : ~ In RRevoked rs').
+  { intros H. apply Hr. eapply Permutation_in; [apply Permutation_sym; exact P|exact H]. }
+  destruct (in_dec dec RUnknown rs) as [Hu|Hu].
+  { rewrite (aggregate_unknown rs n Hne Hn Hr Hu).
+    symmetry. apply aggregate_unknown; [exact Hne'|exact Hn'|exact Hr'|]. eapply Permutation_in; eauto. }
+  assert (Hall : Forall (fun r => r = ROK \/ r = RNonRevokable) rs).
+  { apply Forall_forall. intros x Hx. destruct x; [contradiction|left; reflexivity|right; reflexivity|contradiction]. }
+  assert (Hall' : Forall (fun r => r = ROK \/ r = RNonRevokable) rs').
+  { apply Forall_forall. intros x Hx. rewrite Forall_forall in Hall. apply Hall.
+    eapply Permutation_in; [apply Permutation_sym; exact P|exact Hx]. }
+  assert (E1 : aggregate rs n = AOk) by (apply aggregate_ok_iff; auto).
+  assert (E2 : aggregate rs' n = AOk) by (apply aggregate_ok_iff; auto).
+  rewrite E1, E2. reflexivity.
+Qed.
